@@ -31,6 +31,10 @@ type storeOp struct {
 	// S only - how the caller makes the signed update: "" Efivarfs.WriteSignedUpdate; "prepared": the caller signs it
 	// itself (signature.SignEFIVariable), looks at the returned value Prep times first (Marshal and Bytes, as when it is
 	// saved as an .auth file or its size is logged) and then hands it to WriteVar; the value object is kept.
+	// "bytes": the caller signs it itself and hands WriteVar the SERIALISED update - the bytes of the returned value (the
+	// content of an .auth file written earlier, read back and wrapped in a plain byte-slice Marshallable) - instead of the
+	// object SignEFIVariable built; "wrapped": the returned value inside a Marshallable of the caller's own that passes
+	// Marshal and Bytes on to it.  For the store these are the same signed update: what a value IS is what it marshals to.
 	// K = "A" (again) hands the value object kept by the most recent prepared update of this variable to WriteVar once
 	// more (the update is applied again after something else was written); without one it does nothing ("skip").
 	How  string `json:"how,omitempty"`
@@ -106,7 +110,54 @@ func storeVarDesc(name, desc string) efivar.Efivar {
 
 var ordGUID = util.EFIGUID{Data1: 0x11223344, Data2: 0x5566, Data3: 0x7788, Data4: [8]byte{1, 2, 3, 4, 5, 6, 7, 8}}
 
+// the variables the histories name as they are defined
+func isBaseStoreVar(name string) bool {
+	_, wk := wellKnownVars[name]
+	return wk || isSecureBootVar(name) || name == "OrdA" || name == "OrdB" || name == "Ord0"
+}
+
+// caseVariantOf returns the definition of which name is a case variant: a name that differs from the name of one of the
+// variables above only in the case of its letters (DB, Db, pk, ORDA, setupMode, ...).  UEFI variable names are case
+// sensitive: such a name is ANOTHER variable under the same vendor GUID (with the same attributes), an ordinary one
+// as far as the store is concerned.
+func caseVariantOf(name string) (efivar.Efivar, bool) {
+	for _, b := range append([]string{"PK", "KEK", "db", "dbx", "OrdA", "OrdB", "Ord0"}, wellKnownNames()...) {
+		if b != name && strings.EqualFold(b, name) {
+			v := storeVar(b)
+			g := *v.GUID
+			return efivar.Efivar{Name: name, GUID: &g, Attributes: v.Attributes}, true
+		}
+	}
+	return efivar.Efivar{}, false
+}
+
+// the case variants of a variable name used by the generator
+func caseVariants(name string) []string {
+	var out []string
+	for _, n := range []string{strings.ToUpper(name), strings.ToLower(name), strings.ToUpper(name[:1]) + name[1:], strings.ToLower(name[:1]) + name[1:], name[:len(name)-1] + strings.ToUpper(name[len(name)-1:]), name[:len(name)-1] + strings.ToLower(name[len(name)-1:])} {
+		dup := n == name
+		for _, o := range out {
+			dup = dup || o == n
+		}
+		if !dup {
+			out = append(out, n)
+		}
+	}
+	return out
+}
+
+// passMarsh is a caller's own Marshallable around another one
+type passMarsh struct{ inner efivar.Marshallable }
+
+func (p passMarsh) Marshal(b *bytes.Buffer) { p.inner.Marshal(b) }
+func (p passMarsh) Bytes() []byte           { return p.inner.Bytes() }
+
 func storeVar(name string) efivar.Efivar {
+	if !isBaseStoreVar(name) {
+		if v, ok := caseVariantOf(name); ok {
+			return v
+		}
+	}
 	switch name {
 	case "PK":
 		return efivar.PK
@@ -251,11 +302,17 @@ func init() {
 				if db, derr := signature.ReadSignatureDatabase(bytes.NewReader(unhx(op.Value))); isSecureBootVar(op.Var) && derr == nil {
 					m = &db
 				}
-				if op.How == "prepared" {
+				if op.How != "" {
 					_, sm, err := signature.SignEFIVariable(v, m, key, cert)
 					if err != nil {
 						out = append(out, "sign-"+errCls(err))
 						break
+					}
+					switch op.How {
+					case "bytes": // the serialised update (what an .auth file holds), not the object that was built
+						sm = rawValue(append([]byte{}, sm.Bytes()...))
+					case "wrapped": // the object inside a Marshallable of the caller's own
+						sm = passMarsh{sm}
 					}
 					for k := 0; k < op.Prep; k++ {
 						var b bytes.Buffer
@@ -428,7 +485,7 @@ func c12Eval(c *Ctx, cs Case) {
 				continue
 			}
 			op.K, op.Value = "S", pv
-		} else if op.K == "S" && op.How == "prepared" {
+		} else if op.K == "S" && op.How != "" {
 			preparedVal[op.Var] = op.Value
 		}
 		switch op.K {
@@ -524,7 +581,7 @@ func c12Eval(c *Ctx, cs Case) {
 				continue
 			}
 			op.K, op.Value = "S", pv
-		} else if op.K == "S" && op.How == "prepared" {
+		} else if op.K == "S" && op.How != "" {
 			modelPrepared[op.Var] = op.Value
 		}
 		if i < len(outs) {
@@ -633,9 +690,9 @@ func c12Gen(c *Ctx) {
 	wk := wellKnownNames()
 	wkVals := append([]string{"00", "01"}, raws...)
 	pair("00", "01")
-	nSame, nPrepared, nAgain, nOrdSigned, nWellKnown, nOverlap, nSweep := 0, 0, 0, 0, 0, 0, 0
+	nSame, nPrepared, nAgain, nOrdSigned, nWellKnown, nOverlap, nSweep, nTwin, nSerialised := 0, 0, 0, 0, 0, 0, 0, 0, 0
 	defer func() {
-		c.Note("operations_generated", fmt.Sprintf("read/same-length-write/read triples %d; signed updates made by the caller itself and kept %d; kept updates written again %d; signed updates of ordinary variables %d; operations on the other well-known variables (%d definitions) %d; pairs of overlapping writes through one store %d; histories that end with a read of every variable %d", nSame, nPrepared, nAgain, nOrdSigned, len(wk), nWellKnown, nOverlap, nSweep))
+		c.Note("operations_generated", fmt.Sprintf("read/same-length-write/read triples %d; signed updates made by the caller itself and kept %d; kept updates written again %d; signed updates of ordinary variables %d; operations on the other well-known variables (%d definitions) %d; pairs of overlapping writes through one store %d; histories that end with a read of every variable %d; histories with two variables whose names differ in case only %d; signed updates handed to WriteVar as serialised bytes or inside the caller's own Marshallable %d", nSame, nPrepared, nAgain, nOrdSigned, len(wk), nWellKnown, nOverlap, nSweep, nTwin, nSerialised))
 	}()
 	for i := 0; i < c.N(150, 10000) && c.NFailures() < 6; i++ {
 		n := 2 + c.Rng.Intn(c.P(9, 29))
@@ -657,10 +714,58 @@ func c12Gen(c *Ctx) {
 		if histWk[1] != "SetupMode" && histWk[1] != "SecureBoot" {
 			universe = append(universe, histWk[1])
 		}
+		valOf := func(v string) string {
+			if b, ok := caseVariantOf(v); ok && !isBaseStoreVar(v) {
+				// a case variant holds values of the kind its sibling holds
+				for _, bn := range append([]string{"PK", "KEK", "db", "dbx", "OrdA", "OrdB", "Ord0"}, wk...) {
+					if strings.EqualFold(bn, b.Name) {
+						v = bn
+					}
+				}
+			}
+			if isSecureBootVar(v) {
+				return dbs[c.Rng.Intn(len(dbs))]
+			}
+			if _, ok := wellKnownVars[v]; ok {
+				return wkVals[c.Rng.Intn(len(wkVals))]
+			}
+			return raws[c.Rng.Intn(len(raws))]
+		}
+		// variable names are case sensitive: every second history also has a CASE VARIANT of one of its variables (DB / Db
+		// beside db, pk beside PK, ORDA beside OrdA, setupMode beside SetupMode, ...) under the same vendor GUID - another
+		// variable, a register of its own.  One of the two is there first (in the pre-populated store, or written by the
+		// first operation), then the other is written for the first time and both are read; later operations use both.
+		twinBase, twin := "", ""
+		var ops0 []interface{}
+		if i%2 == 0 {
+			cands := append(append([]string{}, vars...), histWk...)
+			twinBase = cands[c.Rng.Intn(len(cands))]
+			cv := caseVariants(twinBase)
+			twin = cv[c.Rng.Intn(len(cv))]
+			universe = append(universe, twin)
+			first, second := twinBase, twin
+			if c.Rng.Intn(2) == 0 {
+				first, second = twin, twinBase
+			}
+			switch c.Rng.Intn(3) {
+			case 0: // present in the store the history starts from
+				pre[first] = valOf(first)
+				ops0 = append(ops0, map[string]interface{}{"k": "W", "var": second, "value": valOf(second)}, map[string]interface{}{"k": "G", "var": first}, map[string]interface{}{"k": "G", "var": second})
+			case 1: // written by the first operation
+				ops0 = append(ops0, map[string]interface{}{"k": "W", "var": first, "value": valOf(first)}, map[string]interface{}{"k": "W", "var": second, "value": valOf(second)}, map[string]interface{}{"k": "G", "var": first}, map[string]interface{}{"k": "G", "var": second})
+			}
+			nTwin++
+		}
 		lastVal := map[string]string{} // what the generator last wrote to each variable
 		for k, v := range pre {
 			lastVal[k] = v.(string)
 		}
+		for _, o := range ops0 {
+			if m := o.(map[string]interface{}); m["k"] == "W" {
+				lastVal[m["var"].(string)] = m["value"].(string)
+			}
+		}
+		ops = append(ops, ops0...)
 		kept := map[string]bool{} // variables for which the caller keeps a signed update it made itself
 		for j := 0; j < n; j++ {
 			v := vars[c.Rng.Intn(len(vars))]
@@ -678,14 +783,9 @@ func c12Gen(c *Ctx) {
 				v = histWk[c.Rng.Intn(2)]
 				nWellKnown++
 			}
-			valOf := func(v string) string {
-				if isSecureBootVar(v) {
-					return dbs[c.Rng.Intn(len(dbs))]
-				}
-				if _, ok := wellKnownVars[v]; ok {
-					return wkVals[c.Rng.Intn(len(wkVals))]
-				}
-				return raws[c.Rng.Intn(len(raws))]
+			// in a history with a case variant one operation in five is on the variant or on its sibling
+			if twin != "" && c.Rng.Intn(5) == 0 {
+				v = []string{twin, twinBase}[c.Rng.Intn(2)]
 			}
 			val := valOf(v)
 			// one time in four the new value is a different value of exactly the length of the one the variable holds, and
@@ -704,10 +804,17 @@ func c12Gen(c *Ctx) {
 				op = map[string]interface{}{"k": "S", "var": v, "value": val, "key": 0}
 				// every second one is made by the caller itself (signature.SignEFIVariable), looked at 0..2 times and then
 				// handed to WriteVar; the caller keeps it
-				if c.Rng.Intn(2) == 0 {
-					op["how"], op["prep"] = "prepared", c.Rng.Intn(3)
+				// three in five are made by the caller itself (signature.SignEFIVariable) and then handed to WriteVar: as the
+				// object that was returned, looked at 0..2 times first; as the serialised bytes of that object in a plain
+				// byte-slice Marshallable (the content of an .auth file); inside a Marshallable of the caller's own.  The
+				// caller keeps what it handed over
+				if h := c.Rng.Intn(5); h >= 2 {
+					op["how"], op["prep"] = []string{"prepared", "bytes", "wrapped"}[h-2], c.Rng.Intn(3)
 					kept[v] = true
 					nPrepared++
+					if h > 2 {
+						nSerialised++
+					}
 				}
 				if !isSecureBootVar(v) {
 					nOrdSigned++
@@ -758,7 +865,11 @@ func c12Gen(c *Ctx) {
 			if op["k"] == "P" {
 				ops = append(ops, map[string]interface{}{"k": "G", "var": v}, map[string]interface{}{"k": "G", "var": op["var2"]})
 			}
-			if op["how"] == "prepared" && c.Rng.Intn(2) == 0 {
+			if twin != "" && (v == twin || v == twinBase) && (op["k"] == "W" || op["k"] == "S") {
+				// a write to one of two names that differ in case only: both are read
+				ops = append(ops, map[string]interface{}{"k": "G", "var": twinBase}, map[string]interface{}{"k": "G", "var": twin})
+			}
+			if op["how"] != nil && c.Rng.Intn(2) == 0 {
 				// ... and applies it again after another value was written in between (or at once): the variable then holds
 				// the update's payload again
 				if c.Rng.Intn(3) != 0 {
@@ -792,7 +903,7 @@ func c12Gen(c *Ctx) {
 
 func init() {
 	register("C12", &PropDef{
-		Rule:   "histories of 2..10 (thorough ..30) generated operations (plus the reads added after them) over {PK, KEK, db, dbx, two ordinary variables, one ordinary variable declared with attribute mask 0, and the other well-known variables of package efivar}: plain writes, signed updates (RSA-2048) and reads, each operation describing its variable either with the package-level efivar definition or (in two histories out of three, mixed within the history) with a caller-built Efivar value of equal name, GUID (util.StringToGUID of the canonical text, or a copy of the GUID value) and attributes, reads then going through GetVar with that description; values that grow, shrink (to the empty database / empty value) and repeat (7 databases from empty to two lists with certificates and list types the decoder does not handle, 5 raw values from 0 to 300 bytes), and values that repeat in LENGTH but not in content (for every non-empty value a second one of exactly the same length; one write in four of a variable that holds such a value writes its same-length sibling and the variable is read immediately before and after: read / write of a different value of the same length / read on one store); signed updates are made either by Efivarfs.WriteSignedUpdate or (every second one) by the caller itself with signature.SignEFIVariable, whose returned value object is marshalled 0..2 times (Marshal and Bytes, as when it is saved or measured) before it is handed to WriteVar and is KEPT: in half of these histories the kept object is handed to WriteVar again (operation A), at once or after another value was written to the variable, and the variable must then hold the update's payload again; one signed update in about five goes to an ORDINARY variable, for which nothing is removed: a read must return an authentication descriptor (by extent) followed by exactly the payload, the same bytes on every read until the next write; the OTHER package-level variable definitions of efivar (SetupMode, SecureBoot, PKDefault / KEKDefault / dbDefault / dbxDefault, BootOrder / BootNext / BootCurrent, the eleven Loader* variables) are variables of the histories too: every history picks SetupMode or SecureBoot and one other definition, about one operation in four writes (plain or signed), reads or overlaps one of them around the writes of PK / KEK / db / dbx (values: the raw values and the one-byte values 0 / 1), one history in three starts from a store pre-populated with one of them, SetupMode / SecureBoot are also read through GetSetupMode / GetSecureBoot (true iff the first byte of the last value written is 1), and two histories out of three END WITH A READ OF EVERY VARIABLE of the history's universe (the seven above, SetupMode, SecureBoot, the history's other definition), written or not: a write to one variable changes no other variable and creates no other variable; OVERLAPPING WRITES (operation P, every second history): WriteVar of a variable is called with a value object whose Marshal parks - after, before or half way through writing its bytes - until another goroutine has run a complete WriteVar of ANOTHER variable of the history through the SAME store, then goes on (hand-over by channels, one goroutine runs at a time, deterministic); both variables are read afterwards and each must hold the value written to it, as when each call runs alone (for the Lean model the operation is the two writes); empty and pre-populated stores (With(...)); run in a worker process because a write may end the process on an unrepaired tree. Every read is compared with the register oracle and the Lean store model. Held results: every read operation also reads the variable through the same store with a caller-supplied Unmarshallable that keeps the bytes it is handed (no copy); the held value must be the value of the most recent write when the read returns and must still be that value after every later operation of the history (reads and writes of other variables, and of the same variable after a new write). Non-trivial: at least two operations; distinct = distinct histories.",
+		Rule:   "histories of 2..10 (thorough ..30) generated operations (plus the reads added after them) over {PK, KEK, db, dbx, two ordinary variables, one ordinary variable declared with attribute mask 0, and the other well-known variables of package efivar}: plain writes, signed updates (RSA-2048) and reads, each operation describing its variable either with the package-level efivar definition or (in two histories out of three, mixed within the history) with a caller-built Efivar value of equal name, GUID (util.StringToGUID of the canonical text, or a copy of the GUID value) and attributes, reads then going through GetVar with that description; values that grow, shrink (to the empty database / empty value) and repeat (7 databases from empty to two lists with certificates and list types the decoder does not handle, 5 raw values from 0 to 300 bytes), and values that repeat in LENGTH but not in content (for every non-empty value a second one of exactly the same length; one write in four of a variable that holds such a value writes its same-length sibling and the variable is read immediately before and after: read / write of a different value of the same length / read on one store); signed updates are made either by Efivarfs.WriteSignedUpdate or (three in five) by the caller itself with signature.SignEFIVariable, whose returned value object is marshalled 0..2 times (Marshal and Bytes, as when it is saved or measured) before it is handed to WriteVar - as the object itself, as its SERIALISED BYTES in a plain byte-slice Marshallable (the content of an .auth file), or inside a Marshallable of the caller's own that passes Marshal / Bytes on (one in five each): for PK / KEK / db / dbx the store must hold the payload with the descriptor removed in all three forms - and is KEPT: in half of these histories the kept object is handed to WriteVar again (operation A), at once or after another value was written to the variable, and the variable must then hold the update's payload again; one signed update in about five goes to an ORDINARY variable, for which nothing is removed: a read must return an authentication descriptor (by extent) followed by exactly the payload, the same bytes on every read until the next write; the OTHER package-level variable definitions of efivar (SetupMode, SecureBoot, PKDefault / KEKDefault / dbDefault / dbxDefault, BootOrder / BootNext / BootCurrent, the eleven Loader* variables) are variables of the histories too: every history picks SetupMode or SecureBoot and one other definition, about one operation in four writes (plain or signed), reads or overlaps one of them around the writes of PK / KEK / db / dbx (values: the raw values and the one-byte values 0 / 1), one history in three starts from a store pre-populated with one of them, SetupMode / SecureBoot are also read through GetSetupMode / GetSecureBoot (true iff the first byte of the last value written is 1), and two histories out of three END WITH A READ OF EVERY VARIABLE of the history's universe (the seven above, SetupMode, SecureBoot, the history's other definition), written or not: a write to one variable changes no other variable and creates no other variable; OVERLAPPING WRITES (operation P, every second history): WriteVar of a variable is called with a value object whose Marshal parks - after, before or half way through writing its bytes - until another goroutine has run a complete WriteVar of ANOTHER variable of the history through the SAME store, then goes on (hand-over by channels, one goroutine runs at a time, deterministic); both variables are read afterwards and each must hold the value written to it, as when each call runs alone (for the Lean model the operation is the two writes); CASE-SENSITIVE NAMES: every second history also has a case variant of one of its variables under the same vendor GUID (DB / Db / dB beside db, pk beside PK, ORDA / ordA beside OrdA, SETUPMODE / setupMode beside SetupMode, ...; values of the kind its sibling holds) - another variable, a register of its own, ordinary as far as the store is concerned: in two thirds of these histories one of the two names is present first (in the pre-populated store, or written by the first operation), then the other is written for the first time and both are read; one later operation in five is on one of the two, every write to one of them is followed by a read of both, and the final read of every variable includes both; empty and pre-populated stores (With(...)); run in a worker process because a write may end the process on an unrepaired tree. Every read is compared with the register oracle and the Lean store model. Held results: every read operation also reads the variable through the same store with a caller-supplied Unmarshallable that keeps the bytes it is handed (no copy); the held value must be the value of the most recent write when the read returns and must still be that value after every later operation of the history (reads and writes of other variables, and of the same variable after a new write). Non-trivial: at least two operations; distinct = distinct histories.",
 		Assume: []string{"variables without the APPEND_WRITE attribute (the property's register semantics)", "values of secure-boot variables are well-formed signature databases (any list type of ValidEFISignatureSchemes, including types the decoder does not handle; those are compared as bytes)"},
 		Eval:   c12Eval, Gen: c12Gen,
 	})
